@@ -264,7 +264,8 @@ class ConnectionPool(object):
             except KeyError:
                 return
             else:
-                yield from release_task
+                # Shielded: cancelling the caller must not cancel the release.
+                yield from asyncio.shield(release_task)
 
     @asyncio.coroutine
     def session(self, host: str, port: int, use_ssl: bool=False):
